@@ -14,6 +14,8 @@ use vcore::spec;
 enum Case {
     Multi { universe: usize, values: Vec<usize> },
     FromIter { seq: Vec<usize> },
+    /// Many duplicates: (value, multiplicity) pairs with increasing values.
+    Heavy { universe: usize, runs: Vec<(usize, usize)>, via_iter: bool },
 }
 
 fn check_multi(ctx: &mut Ctx, universe: usize, values: &[usize], via_iter: Option<&SparseVector>) {
@@ -128,6 +130,72 @@ fn check_multi(ctx: &mut Ctx, universe: usize, values: &[usize], via_iter: Optio
     }
 }
 
+/// Multisets with tens of thousands of duplicates (the upper part of the encoding then has long runs of
+/// set bits, i.e. long select superblocks next to short ones). Queries at the structural edges only.
+fn check_heavy(ctx: &mut Ctx, universe: usize, runs: &[(usize, usize)], via_iter: bool) {
+    let c = Case::Heavy { universe, runs: runs.to_vec(), via_iter };
+    let case = || serde_json::to_value(&c).unwrap();
+    ctx.announce(case);
+    ctx.nontrivial(&c);
+    ctx.count("cases_with_duplicates", 1);
+    let values: Vec<usize> = runs.iter().flat_map(|&(v, m)| std::iter::repeat(v).take(m)).collect();
+    let ms = Multiset { universe, values: values.clone() };
+    let sv = match guard(|| if via_iter { SparseVector::try_from_iter(values.clone().into_iter()).map_err(|e| e.to_string()) } else { Ok(sparse_multiset(universe, &values)) }) {
+        Ok(Ok(sv)) => sv,
+        Ok(Err(e)) => {
+            ctx.require(|| "SparseVector.try_from_iter[sorted refused]".to_string(), false, || json!({"ms": case(), "call": "try_from_iter"}), || json!({"observed": format!("Err({})", e), "expected": "Ok"}));
+            return;
+        }
+        Err(msg) => {
+            ctx.panic_violation("SparseVector(multiset).construct", &msg, None, || json!({"ms": case(), "call": "construct"}));
+            return;
+        }
+    };
+    let name = "SparseVector(multiset)";
+    let n = values.len();
+    ctx.expect(|| format!("{}.len", name), guard(|| sv.len()), &universe, || json!({"ms": case(), "call": "len()"}));
+    ctx.expect(|| format!("{}.count_ones", name), guard(|| sv.count_ones()), &n, || json!({"ms": case(), "call": "count_ones()"}));
+    let mut ranks: Vec<usize> = boundary_args(n);
+    let mut at = 0usize;
+    for &(_, m) in runs {
+        for r in [at.saturating_sub(1), at, at + 1, at + m / 2, at + 4095, at + 4096, at + 4097, (at + m).saturating_sub(2)] {
+            ranks.push(r);
+        }
+        at += m;
+    }
+    ranks.sort_unstable();
+    ranks.dedup();
+    let tail = |r: usize| -> Vec<(usize, usize)> { values.iter().copied().enumerate().skip(r).take(3).collect() };
+    for &r in &ranks {
+        let cls = arg_class(r, n);
+        ctx.expect(|| format!("{}.select[{}]", name, cls), guard(|| sv.select(r)), &ms.select(r), || json!({"ms": case(), "call": format!("select({})", r)}));
+        ctx.expect(|| format!("{}.select_iter[{}]", name, cls), guard(|| sv.select_iter(r).take(3).collect::<Vec<_>>()), &tail(r), || json!({"ms": case(), "call": format!("select_iter({}), first 3 items", r)}));
+    }
+    let mut idx: Vec<usize> = boundary_args(universe);
+    for &(v, _) in runs {
+        idx.extend([v.saturating_sub(1), v, v + 1]);
+    }
+    for k in 0..=16usize {
+        idx.push(universe / 16 * k);
+    }
+    idx.sort_unstable();
+    idx.dedup();
+    for &i in &idx {
+        let cls = arg_class(i, universe);
+        if i < universe {
+            ctx.expect(|| format!("{}.get[{}]", name, cls), guard(|| sv.get(i)), &ms.get(i), || json!({"ms": case(), "call": format!("get({})", i)}));
+        }
+        ctx.expect(|| format!("{}.rank[{}]", name, cls), guard(|| sv.rank(i)), &ms.rank(i), || json!({"ms": case(), "call": format!("rank({})", i)}));
+        let want: Vec<(usize, usize)> = ms.succ(i).map(|(r, _)| tail(r)).unwrap_or_default();
+        ctx.expect(|| format!("{}.successor[{}]", name, cls), guard(|| sv.successor(i).take(3).collect::<Vec<_>>()), &want, || json!({"ms": case(), "call": format!("successor({}), first 3 items", i)}));
+        let want: Vec<(usize, usize)> = ms.pred(i).map(|(r, _)| tail(r)).unwrap_or_default();
+        ctx.expect(|| format!("{}.predecessor[{}]", name, cls), guard(|| sv.predecessor(i).take(3).collect::<Vec<_>>()), &want, || json!({"ms": case(), "call": format!("predecessor({}), first 3 items", i)}));
+    }
+    let all: Vec<(usize, usize)> = values.iter().copied().enumerate().collect();
+    ctx.expect(|| format!("{}.one_iter", name), guard(|| sv.one_iter().eq(all.iter().copied())), &true, || json!({"ms": case(), "call": "one_iter()"}));
+    ctx.expect(|| format!("{}.one_iter.rev", name), guard(|| sv.one_iter().rev().eq(all.iter().rev().copied())), &true, || json!({"ms": case(), "call": "one_iter().rev()"}));
+}
+
 fn check_from_iter(ctx: &mut Ctx, seq: &[usize]) {
     let c = Case::FromIter { seq: seq.to_vec() };
     let case = || serde_json::to_value(&c).unwrap();
@@ -225,6 +293,25 @@ fn explore(ctx: &mut Ctx) {
             check_from_iter(ctx, &values);
         }
     }
+    // Many duplicates of one value, before / after / between other values and after thousands of empty buckets.
+    let big = ctx.tier.pick(100_000, 300_000);
+    for (universe, runs) in [
+        (20_000usize, vec![(9000usize, 1usize), (10_000, big), (12_000, 1), (16_000, 1)]),
+        (20_000, vec![(0, big), (19_999, 5000)]),
+        (70_000, vec![(5, 3), (40_000, big), (40_001, 70_000), (69_999, 2)]),
+        (300, vec![(10, 5000), (150, big), (299, 4097)]),
+        (1 << 30, vec![(1 << 20, 17), (1 << 29, big), ((1 << 30) - 1, 4096)]),
+    ] {
+        for via_iter in [false, true] {
+            let universe = if via_iter { runs.last().unwrap().0 + 1 } else { universe };
+            let c = Case::Heavy { universe, runs: runs.clone(), via_iter };
+            if ctx.mine(&c) {
+                ctx.count("heavy_duplicate_cases", 1);
+                ctx.sample_tagged("heavy-duplicates", || serde_json::to_value(&c).unwrap());
+                check_heavy(ctx, universe, &runs, via_iter);
+            }
+        }
+    }
     // try_from_iter over every sequence, sorted or not.
     let (alpha, len) = if thorough { (8, 7) } else { (6, 5) };
     enumr::words(alpha, len, |w| {
@@ -242,6 +329,7 @@ fn replay(ctx: &mut Ctx, v: &Value) {
     match c {
         Case::Multi { universe, values } => check_multi(ctx, universe, &values, None),
         Case::FromIter { seq } => check_from_iter(ctx, &seq),
+        Case::Heavy { universe, runs, via_iter } => check_heavy(ctx, universe, &runs, via_iter),
     }
 }
 
